@@ -276,7 +276,11 @@ def run_case(case):
                     async def late_write(delay=(1.5 + (j // 3) % 3) * DEFAULT_LATENCY):
                         await asyncio.sleep(delay)
                         await inv.write_setting(st.id_, v)
+                    # one transmission somewhere in that window is lost (the objects are created with retries=2: whose-
+                    # ever request it hits is retransmitted and answered)
+                    world.net.begin_script([{"k": "ok"}] * (j % 5) + [{"k": "drop"}], default_fault)
                     res = await asyncio.gather(inv.read_device_info(), late_write(), return_exceptions=True)
+                    world.net.begin_script([], default_fault)
                     if isinstance(res[1], BaseException):
                         raise res[1]
                     what += " (issued while read_device_info() was in progress)"
